@@ -106,6 +106,14 @@ Theorem C01_connect_returns_on_ranked_graphs : forall (r : N -> nat) fuel a, wf_
   (forall id, In id (ar_keys a) -> (r id < fuel)%nat) -> exists a', connect_all fuel a = Ok a'.
 Proof. exact connect_all_total. Qed.
 
+(* CONNECT_ALL_TERMS RETURNS EXACTLY ON ACYCLIC GRAPHS (the Builder invariant [binv] holds of every arena the
+   Builder API produces before connect_all_terms): with the fuel the code path uses it neither runs
+   out of fuel nor panics on an acyclic graph — running out of fuel would exhibit a chain of parent
+   links longer than the number of terms, i.e. a cycle — and on a cyclic one it does not return *)
+Theorem C01_connect_returns_iff_acyclic : forall a, binv a ->
+  ((exists a', connect_all (default_fuel a) a = Ok a') <-> acyclic a).
+Proof. exact connect_all_returns_iff_acyclic. Qed.
+
 Print Assumptions C01_closure_exact.
 Print Assumptions C01_model_cache_is_transitive_closure.
 Print Assumptions C01_model_create_cache.
@@ -123,3 +131,4 @@ Print Assumptions C01_rendered_edges_are_the_links.
 Print Assumptions C01_mermaid_text.
 Print Assumptions C01_graphviz_returns.
 Print Assumptions C01_connect_returns_on_ranked_graphs.
+Print Assumptions C01_connect_returns_iff_acyclic.
